@@ -419,6 +419,10 @@ func (h *c16Hist) step(op *c16Op) (string, *c16Obs) {
 	c16NameCase(r, op.Name)
 	pname, ptld, perr := rnskeeper.GetNameAndTLD(norm)
 	parseOK := perr == nil && c16Tld(ptld) != ""
+	// the harness's own reading of a name: everything before the last four bytes (separator + three-letter TLD)
+	if parseOK && len(norm) >= 5 && (pname != norm[:len(norm)-4] || ptld != norm[len(norm)-3:]) {
+		h.finding("C16/parse/name-differs", fmt.Sprintf("%q is parsed as name %q, tld %q; it is priced and stored under that instead of %q.%q", op.Name, pname, ptld, norm[:len(norm)-4], norm[len(norm)-3:]))
+	}
 	idx := pname + "." + ptld
 	addr, aerr := sdk.AccAddressFromBech32(op.Creator)
 	senderOK := aerr == nil
@@ -682,7 +686,9 @@ func c16Scripted() [][]c16Step {
 		{Op: &c16Op{Kind: "RegisterName", Creator: A, Name: "third.jkl", Data: "x", Years: 1, Primary: false, Height: 14}}})
 	// separators, blanks, case of the TLD, unsupported TLDs, direct keeper calls
 	var odd []c16Step
-	for _, nm := range []string{"abc jkl", "abcXjkl", "abc.JKL", "a b c.jkl", "abc.com", "jkl", ".jkl", "a.jkl", "ab-_.ibc", "abc..jkl", "Ünï.jkl", "", "abc.jkl "} {
+	for _, nm := range []string{"abc jkl", "abcXjkl", "abc.JKL", "a b c.jkl", "abc.com", "jkl", ".jkl", "a.jkl", "ab-_.ibc", "abc..jkl", "Ünï.jkl", "", "abc.jkl ",
+		// names spelled with the letters of a TLD (their own or the other one), hyphens at the edges
+		"myjklfan.jkl", "xxibcyy.ibc", "ajkl.jkl", "ibc-relayer.jkl", "jkljkl.jkl", "ibcibc.ibc", "-harbor.jkl", "harbor-.jkl", "--harbor--.ibc"} {
 		for _, kind := range []string{"RegisterName", "Register", "Keeper"} {
 			odd = append(odd, c16Step{Op: &c16Op{Kind: kind, Creator: C, Name: nm, Data: "odd", Years: 1, Primary: kind == "Keeper", Height: 30}})
 		}
